@@ -571,6 +571,8 @@ def exhaustive(ctx, env, A, symtab, depth, tag, states):
                     hit = cache.get(k)
                     if hit is None:
                         hit = cache[k] = real_obs(env, A, c)
+                        if len(c._lights) >= 2 and (len(c._groups) > 1 or len(c._locations) > 1):
+                            ctx.nontriv(('E', hit[0]))
                         bad = python_sanity(c)
                         states.setdefault(('!' + bad) if bad else state_key(c), (A, prefix + [y]))
                 except Exception as ex:  # the property allows no exception here
@@ -591,7 +593,7 @@ def exhaustive(ctx, env, A, symtab, depth, tag, states):
         per_level.append(len(frontier))
         frontier = nxt
     ctx.count(n_nodes)
-    ctx.extra.setdefault('exhaustive', []).append({
+    ctx.extra.setdefault('exhaustive_sweeps', []).append({
         'alphabet': A, 'symbols': len(symtab), 'depth': depth,
         'histories_covered': sum(len(symtab) ** k for k in range(1, depth + 1)),
         'distinct_states_expanded_per_level': per_level, 'steps_executed': n_nodes})
@@ -1040,7 +1042,8 @@ def run(ctx):
     ctx.rule = ('histories over discover(snapshot) / failed discover / time passing / expire(max_age); exhaustive part: every history of '
                 '<= k symbols over the stated alphabets, one evaluation per (distinct real state, symbol); random part: one evaluation per '
                 'step; plus SortedList operation cases, iterate-while-removing cases, VmDiscover walks, refresh cases and one evaluation of '
-                'dir_invb per distinct real state.  Non-trivial = random history with >= 3 distinct getter answers, non-empty sorted list, '
+                'dir_invb per distinct real state.  Non-trivial = exhaustive part: distinct reached state with >= 2 lights in >= 2 groups or locations; '
+                'random history with >= 3 distinct getter answers, non-empty sorted list, '
                 'iteration / walk during which something was actually removed or changed; distinct by full input')
     ctx.assumptions += ['ASCII names; times are integral seconds (time.time patched inside bardolph.controller.light), light_gc_time integral',
                         'get_lights() of the LightApi either raises before yielding a light or returns the whole list (as LifxLanApi does)',
